@@ -1386,6 +1386,41 @@ fn rand_sample(rng: &mut Rng, f: &Fm) -> V {
         V::I(rand_amp_in(rng, -f.half(), f.half() - 1))
     }
 }
+/// An EXTREME value of the format: MAX - d or MIN + d for a distance d around the float precision of the format's Float
+/// companion (0..3, 2^k - 1 | 2^k | 2^k + 1 about bits - p - 2, anything up to four times that); floats: +-largest finite,
+/// +-largest below 1.0, +-1.0.  The identity operations (gain 1.0, offset 0) are driven on these.
+fn edge_sample(rng: &mut Rng, f: &Fm) -> V {
+    if f.float {
+        let (max, below1) = if f.bits == 32 { (f32::MAX as f64, (1.0f32 - f32::EPSILON / 2.0) as f64) } else { (f64::MAX, 1.0 - f64::EPSILON / 2.0) };
+        let x = *rng.pick(&[max, max, below1, 1.0]);
+        return V::F(if rng.chance(1, 2) { -x } else { x });
+    }
+    let p = if f.fl == "f32" { 24 } else { 53 };
+    let slack: i128 = if f.bits > p { 1i128 << (f.bits - p - 2) } else { 0 };
+    let d: i128 = match rng.below(8) {
+        0 => 0,
+        1 => rng.below(4) as i128,
+        2 => (slack - 1).max(0),
+        3 => slack,
+        4 => slack + 1,
+        5 => 3 * slack - 1 + rng.below(3) as i128,
+        6 => (1i128 << rng.below(12)).min(f.half() - 1),
+        _ => rng.below(4 * slack as u64 + 4) as i128,
+    }
+    .clamp(0, f.half() - 1);
+    V::I(if rng.chance(2, 3) { f.half() - 1 - d } else { -f.half() + d })
+}
+/// a frame (or slice) of n samples, extreme ones with probability 3/4, the first always
+fn edge_samples(rng: &mut Rng, f: &Fm, n: usize) -> Vec<V> {
+    (0..n).map(|k| if k == 0 || rng.chance(3, 4) { edge_sample(rng, f) } else { rand_sample(rng, f) }).collect()
+}
+fn zero_of(rng: &mut Rng, f: &Fm) -> V {
+    if f.float {
+        V::F(if rng.chance(1, 2) { -0.0 } else { 0.0 })
+    } else {
+        V::I(0)
+    }
+}
 /// image of an amplitude of f in f's Signed format
 fn img(f: &Fm, a: i128) -> i128 {
     a << (fm(f.sg).bits - f.bits)
@@ -1465,7 +1500,7 @@ fn rand_gain_any(rng: &mut Rng, f: &Fm, xs: &[V], plain: bool) -> V {
             }
         }
     };
-    let g = if g == 1.0 && m >= 0.999 { 0.5 } else { g };
+    // (the gain 1.0 is an identity the specification claims on EVERY value, the top ones included: no exception here)
     V::F(if fl.bits == 32 { (g as f32) as f64 } else { g })
 }
 
@@ -1475,6 +1510,8 @@ fn gen(seed: u64, size: &str, path: &str) {
     let reps = if thorough { 12 } else { 2 };
     let sample_reps = if thorough { 1500 } else { 40 };
     let iter_reps = if thorough { 4 } else { 1 };
+    let edge_sample_reps = if thorough { 400 } else { 24 };
+    let edge_reps = if thorough { 4 } else { 1 };
     let mut execs: Vec<Vec<Value>> = Vec::new();
     let reset = |comp: &str, f: &Fm, n: usize, tag: &str| json!({"ev":"reset","comp":comp,"cfg":{"src":"rand","fmt":f.name,"n":n,"tag":tag}});
     // HX_PART=frame|slice restricts the file to one property's stimuli (default: both)
@@ -1496,6 +1533,17 @@ fn gen(seed: u64, size: &str, path: &str) {
             let g = rand_gain(&mut rng, f, &[s], false);
             ex.push(json!({"ev":"s_add_amp","a":{"fmt":f.name,"s":vj(f,s),"amp":vj(&sg,off)}}));
             ex.push(json!({"ev":"s_mul_amp","a":{"fmt":f.name,"s":vj(f,s),"amp":vj(&fl,g)}}));
+            ex.push(json!({"ev":"s_to_signed","a":{"fmt":f.name,"s":vj(f,s)}}));
+            ex.push(json!({"ev":"s_to_float","a":{"fmt":f.name,"s":vj(f,s)}}));
+        }
+        execs.push(ex);
+        // the identities on the extreme values of the format: gain exactly 1.0, offset exactly 0, the companion conversions
+        let mut ex = vec![reset("frame", f, 0, "edge_samples")];
+        for _ in 0..edge_sample_reps {
+            let s = edge_sample(&mut rng, f);
+            let z = zero_of(&mut rng, &sg);
+            ex.push(json!({"ev":"s_mul_amp","a":{"fmt":f.name,"s":vj(f,s),"amp":vj(&fl,V::F(1.0))}}));
+            ex.push(json!({"ev":"s_add_amp","a":{"fmt":f.name,"s":vj(f,s),"amp":vj(&sg,z)}}));
             ex.push(json!({"ev":"s_to_signed","a":{"fmt":f.name,"s":vj(f,s)}}));
             ex.push(json!({"ev":"s_to_float","a":{"fmt":f.name,"s":vj(f,s)}}));
         }
@@ -1541,6 +1589,20 @@ fn gen(seed: u64, size: &str, path: &str) {
                 for i in [rng.below(nn as u64) as i64, nn as i64 - 1, nn as i64, nn as i64 + 1 + rng.below(100) as i64, -1] {
                     ex.push(json!({"ev":"f_channel","a":{"fmt":f.name,"n":n,"x":vjs(f,&x),"i":i,"v":vj(f,rand_sample(&mut rng,f))}}));
                 }
+            }
+            // the identity operations on frames of extreme values: scale by 1.0, multiply by the all-ones frame, offset by 0,
+            // add the zero frame
+            for _ in 0..edge_reps {
+                let ones: Vec<V> = vec![V::F(1.0); nn];
+                let x = edge_samples(&mut rng, f, nn);
+                ex.push(json!({"ev":"f_scale","a":{"fmt":f.name,"n":n,"x":vjs(f,&x),"amp":vj(&fl,V::F(1.0))}}));
+                let x = edge_samples(&mut rng, f, nn);
+                ex.push(json!({"ev":"f_mul","a":{"fmt":f.name,"n":n,"x":vjs(f,&x),"y":vjs(&fl,&ones)}}));
+                let x = edge_samples(&mut rng, f, nn);
+                ex.push(json!({"ev":"f_offset","a":{"fmt":f.name,"n":n,"x":vjs(f,&x),"amp":vj(&sg,zero_of(&mut rng,&sg))}}));
+                let x = edge_samples(&mut rng, f, nn);
+                let z: Vec<V> = (0..nn).map(|_| zero_of(&mut rng, &sg)).collect();
+                ex.push(json!({"ev":"f_add","a":{"fmt":f.name,"n":n,"x":vjs(f,&x),"y":vjs(&sg,&z)}}));
             }
             // the channel iterators used as iterators: nth / skip / step_by / last / count / collect (and rev / nth_back
             // from channels_ref / channels_mut) on an iterator that has ALREADY been advanced, from both ends where it has two
@@ -1711,6 +1773,33 @@ fn gen(seed: u64, size: &str, path: &str) {
                 }
                 execs.push(ex);
             }
+            // the in-place additions as identities on extreme values: add the zero slice; add with gain 1.0 per channel of
+            // the zero slice; add with gain 1.0 of a slice of extreme Signed amplitudes onto a slice that leaves room for it
+            let mut ex = vec![reset("slice", f, n, "inplace_edge")];
+            let ones: Vec<V> = vec![V::F(1.0); nn];
+            for l in [1usize, 2, rng.range(3, if thorough { 40 } else { 6 }) as usize] {
+                for variant in 0..3 {
+                    let (op, xa, xb): (&str, Vec<V>, Vec<V>) = match variant {
+                        0 => ("add", edge_samples(&mut rng, f, l * nn), (0..l * nn).map(|_| zero_of(&mut rng, &sg)).collect()),
+                        1 => ("add_amp", edge_samples(&mut rng, f, l * nn), (0..l * nn).map(|_| zero_of(&mut rng, &sg)).collect()),
+                        _ => {
+                            let xb = edge_samples(&mut rng, &sg, l * nn);
+                            // destination at (or a step inside) equilibrium on the side that keeps the sum representable
+                            let xa = xb
+                                .iter()
+                                .map(|b| match b {
+                                    V::I(m) => V::I(if *m >= 0 { -(rng.below(3) as i128) } else { rng.below(3) as i128 }),
+                                    V::F(_) => V::F(0.0),
+                                })
+                                .collect();
+                            ("add_amp", xa, xb)
+                        }
+                    };
+                    ex.push(json!({"ev":"inplace","a":{"fmt":f.name,"n":n,"op":op,"la":l,"lb":l,
+                        "xa":vframes(f,&xa,nn),"xb":vframes(&sg,&xb,nn),"ys":vframes(f,&xa,nn),"ampf":vjs(&af,&ones)}}));
+                }
+            }
+            execs.push(ex);
         }
     }
     write_stimuli(path, &execs);
